@@ -85,6 +85,15 @@
 
 #endif
 
+/* hook for the verification harness in /verif: a scheduling point before every access to Boost's process-global
+ * default precision; compiled in only with -DSOPLEX_VERIF, a no-op otherwise */
+#ifdef SOPLEX_VERIF
+extern "C" void soplex_verif_point(const char* tag);
+#define SPX_VERIF_POINT(tag) soplex_verif_point(tag)
+#else
+#define SPX_VERIF_POINT(tag)
+#endif
+
 namespace soplex
 {
 // Overloaded EQ function
